@@ -50,11 +50,11 @@ def selftest(run):
     def m_env(r):
         row = [x for x in r["rows"] if len(x) == 4][0]
         row[2], row[3] = row[3], row[2]
-    results["Trace_Env(swap hi/lo)"] = corrupt_and_validate("env", "Trace_Env", tr, {"NV": 4}, m_env, boundary='"k":"reset"',
+    results["Trace_Env(swap hi/lo)"] = corrupt_and_validate("env", "Trace_Env", tr, {"NV": 4}, m_env, boundary='"k":"reset"', extra_cfg="CONSTANT NameSeq <- XS4",
                                                              pick=lambda r: r["k"] == "op" and any(len(x) == 4 for x in r.get("rows", [])))
     def m_env2(r):
         r["fresh"] = flip_leaf(r["fresh"])
-    results["Trace_Env(fresh result)"] = corrupt_and_validate("env2", "Trace_Env", tr, {"NV": 4}, m_env2, boundary='"k":"reset"',
+    results["Trace_Env(fresh result)"] = corrupt_and_validate("env2", "Trace_Env", tr, {"NV": 4}, m_env2, boundary='"k":"reset"', extra_cfg="CONSTANT NameSeq <- XS4",
                                                                pick=lambda r: r["k"] == "op")
     # Trace_BddSet: change one observed membership bit
     d = fresh_dir("selftest", "set")
